@@ -696,7 +696,20 @@ fn run_hist(kind: FactoryKind, init: &FParams, probes: &[u64], steps: &[Step], t
     let mut viol = vec![];
     let mut hist = vec![];
     let mut nontrivial = false;
-    let q0 = observe(&w.app, &w.factory, probes).expect("queries");
+    let q0 = match observe(&w.app, &w.factory, probes) {
+        Ok(q) => q,
+        Err(e) => {
+            // a freshly instantiated factory must answer its parameter queries
+            return Outcome {
+                coq: String::new(),
+                steps: 1,
+                nontrivial: false,
+                viol: vec![(format!("{}:queries-fail-after-instantiate", kind.name()), format!("instantiated with {:?}, then the factory's queries fail: {}", init, e))],
+                hist: vec![format!("{}:instantiate:queries-fail", kind.name())],
+                sample: format!("{} [{}]: queries fail after instantiate", kind.name(), tag),
+            };
+        }
+    };
     if params_from_json(kind, &q0.params, init).as_ref() != Some(init) && kind != FactoryKind::Base {
         // (base: fields the kind lacks are copied from `init`, so equal by construction)
     }
@@ -707,13 +720,20 @@ fn run_hist(kind: FactoryKind, init: &FParams, probes: &[u64], steps: &[Step], t
     let mut ledger_ids: BTreeSet<u64> = init.allowed.iter().copied().collect();
     let mut prev = q0;
     let q0s = coq_obs(&mut n, kind, &prev, init);
-    for s in steps {
+    'steps: for s in steps {
         match s {
             Step::Upd(u) => {
                 let dump0 = storage_dump(&w.app, &w.factory);
                 let r = sudo_json(&mut w.app, &w.factory, &upd_json(kind, u));
                 let ok = r.is_ok();
-                let cur = observe(&w.app, &w.factory, probes).expect("queries");
+                let cur = match observe(&w.app, &w.factory, probes) {
+                    Ok(c) => c,
+                    Err(e) => {
+                        // "the factory's parameter query returns exactly ..." -- it must at least still answer
+                        viol.push((format!("{}:queries-fail-after-update", kind.name()), format!("after UpdateParams {:?} (accepted: {}) the factory's queries fail: {}", u, ok, e)));
+                        break 'steps;
+                    }
+                };
                 if let Some(x) = frame_violation(&dump0, &storage_dump(&w.app, &w.factory), b"sudo-params") {
                     viol.push((format!("{}:update-touched-other-state", kind.name()), x));
                 }
@@ -733,7 +753,13 @@ fn run_hist(kind: FactoryKind, init: &FParams, probes: &[u64], steps: &[Step], t
             Step::Bad(raw) => {
                 let dump0 = storage_dump(&w.app, &w.factory);
                 let r = sudo_raw(&mut w.app, &w.factory, raw.as_bytes().to_vec());
-                let cur = observe(&w.app, &w.factory, probes).expect("queries");
+                let cur = match observe(&w.app, &w.factory, probes) {
+                    Ok(c) => c,
+                    Err(e) => {
+                        viol.push((format!("{}:queries-fail-after-update", kind.name()), format!("after the undecodable message {} the factory's queries fail: {}", raw, e)));
+                        break 'steps;
+                    }
+                };
                 if r.is_ok() {
                     viol.push((format!("{}:undecodable-accepted", kind.name()), format!("{} accepted", raw)));
                 }
@@ -1042,7 +1068,9 @@ pub fn run(a: &Args) {
             rep.samples.push(json!({ "case": o.sample }));
         }
         for part in o.coq.split(" ;; ") {
-            coq_cases.push(part.to_string());
+            if !part.is_empty() {
+                coq_cases.push(part.to_string());
+            }
         }
     }
     rep.notes.push(format!("{} implementation steps (sudo / execute calls, each followed by the queries) in {} Coq cases", rep.evaluations, coq_cases.len()));
